@@ -390,6 +390,10 @@ func (t *Tree) internalDelete(subpath []string, condition func(interface{}) bool
 			// An empty node holds nothing to delete (Query does not report it either).
 			return false, nil
 		default:
+			if len(subpath) != 0 {
+				// The glob was followed by further elements: they cannot match below a leaf.
+				return false, nil
+			}
 			if condition(t.leafBranch) {
 				// The second parameter is an empty path that will be filled as recursion
 				// unwinds for this leaf that will be deleted in its parent.
